@@ -641,6 +641,16 @@ pub(crate) fn yield_point<'a>(sh: &'a Shared, mut g: MutexGuard<'a, State>, me: 
         drop(g);
         std::panic::resume_unwind(Box::new(Teardown));
     }
+    // whatever was scheduled for the current instant (a peer reacting with zero delay: a reset in
+    // the middle of an upload, an immediate reply) has happened by the time the next primitive runs
+    while let Some(Reverse(next)) = g.timers.peek() {
+        if next.t > g.now {
+            break;
+        }
+        let Reverse(tm) = g.timers.pop().unwrap();
+        g.history.events += 1;
+        g.fire(tm.ev);
+    }
     if g.live_threads() <= 1 {
         return g;
     }
